@@ -180,7 +180,7 @@ func Verif_C12_Script() {
 }
 
 //verif:entry tier=thorough gosync steps=4000000 cover=fired,removed,reset,moved
-//verif:doc Script (thorough): slots n in {2,3}; pre-ticks < n; 4 operations on key a, each followed by 0..n+1 ticks; delays in [1, 2n+1] intervals.
+//verif:doc Script (thorough): slots n in {2,3}; pre-ticks < n; 4 (n=2) / 3 (n=3) operations on key a, each followed by 0..n ticks; delays in [1, 2n+1] intervals.
 func Verif_C12_Script4() {
 	n := 2 + rt.Choose("slots", 2)
 	w := c12New(n)
@@ -190,10 +190,14 @@ func Verif_C12_Script4() {
 		w.doTick(keys)
 	}
 	ticks := []int{}
-	for i := 0; i <= n+1; i++ {
+	for i := 0; i <= n; i++ {
 		ticks = append(ticks, i)
 	}
-	w.script(keys, 4, 2*n+1, ticks)
+	ops := 4
+	if n == 3 {
+		ops = 3 // 4 operations with 3 slots exceed the thorough budget (measured)
+	}
+	w.script(keys, ops, 2*n+1, ticks)
 }
 
 //verif:entry tier=thorough gosync steps=4000000 cover=fired,removed,reset,moved
